@@ -227,6 +227,9 @@ func (it *interp) reduce(s *state) *state {
 		if msigOf(x) != msigOf(y) {
 			v -= 1000
 		}
+		if nf := it.flagDisagreements(x, y); nf > 0 {
+			v -= flagPenalty * nf // the paths took different arms of a flag test: facts that hold only under the flag would be lost
+		}
 		if listSig(x) != listSig(y) {
 			v -= 3000 // the paths know the last element of different lists (lists.go): merging forgets both
 		}
@@ -307,6 +310,24 @@ func (it *interp) merge(a, b *disjunct) *disjunct {
 					m.tags = map[string]string{}
 				}
 				m.tags[k] = t
+			}
+		}
+	}
+	// memoised call results that both sides hold in the same form survive
+	for _, ea := range a.memo {
+		for _, eb := range b.memo {
+			if ea.callee != eb.callee || len(ea.args) != len(eb.args) || !repEqual(ea.res, eb.res) {
+				continue
+			}
+			same := true
+			for i := range ea.args {
+				if !repEqual(ea.args[i], eb.args[i]) {
+					same = false
+				}
+			}
+			if same {
+				m.memo = append(m.memo, ea)
+				break
 			}
 		}
 	}
@@ -487,6 +508,7 @@ func (it *interp) merge(a, b *disjunct) *disjunct {
 	// facts present on both sides are kept for free; for the others only a bounded number of
 	// entailment attempts is made, shortest facts first (dropping a fact is always sound)
 	const maxTries = 32
+	var flagsHere, flagsOther map[int]int64
 	tryKeep := func(fs []lin.Ineq, otherKeys map[string]bool, other *disjunct) {
 		var rest []lin.Ineq
 		for _, q := range fs {
@@ -507,10 +529,33 @@ func (it *interp) merge(a, b *disjunct) *disjunct {
 		for _, q := range rest {
 			if it.entails(other, q) {
 				m.addFact(q)
+				continue
+			}
+			// a lower bound x >= c (c > 0) that holds on this side only, where this side has a 0/1 flag b
+			// pinned to 1 and the other side has it pinned to 0: x >= c*b holds on both when the other side
+			// knows x >= 0 ("Padding implies PaddingSize >= 1" survives the merge as PaddingSize >= Padding)
+			v, c, ok := q.L.Scale(-1).VarPlusConst() // q: -x + c <= 0  <=>  x - c >= 0
+			if !ok || c >= 0 || len(flagsHere) == 0 {
+				continue
+			}
+			for b, val := range flagsHere {
+				if val != 1 || flagsOther[b] != 0 {
+					continue
+				}
+				if _, pinned := flagsOther[b]; !pinned {
+					continue
+				}
+				cand := lin.GE(lin.Var(v), lin.Var(b).Scale(-c))
+				if !m.fkeys[cand.Key()] && it.entails(other, cand) {
+					m.addFact(cand)
+				}
 			}
 		}
 	}
+	pa, pb := it.flagPins(a), it.flagPins(b)
+	flagsHere, flagsOther = pa, pb
 	tryKeep(fa, b.fkeys, db)
+	flagsHere, flagsOther = pb, pa
 	tryKeep(fb, a.fkeys, da)
 	// values that differ on the two sides but whose difference (or sum) is the same expression on both
 	// keep that relation between their merged atoms (r = n - w stays r + w = n when w and r are merged)
@@ -897,4 +942,89 @@ func (it *interp) checkPost(f frameID, fn *ssa.Function, ret *ssa.Return, nd *di
 		}
 	}
 	it.oblige(fn, ret, "CTR", "post: "+ms.PostText, ok, func() string { return why })
+}
+
+// flagPins: the 0/1-valued atoms that the path condition pins to a constant (b <= 0, or -b+1 <= 0).
+func (it *interp) flagPins(d *disjunct) map[int]int64 {
+	pins := map[int]int64{}
+	for _, q := range d.facts {
+		vs := q.L.Vars()
+		if len(vs) != 1 {
+			continue
+		}
+		lo, hi, hl, hh := it.at.rangeOf(vs[0])
+		if !hl || !hh || lo != 0 || hi != 1 || !it.inputFlag(vs[0]) {
+			continue
+		}
+		v, c, ok := q.L.VarPlusConst()
+		if ok && c == 0 { // b <= 0
+			pins[v] = 0
+		} else if q.L.Scale(-1).AddConst(1).Equal(lin.Var(vs[0])) { // -b + 1 <= 0
+			pins[vs[0]] = 1
+		}
+	}
+	return pins
+}
+
+func (it *interp) flagDisagreements(x, y *disjunct) int {
+	px, py := it.flagPins(x), it.flagPins(y)
+	n := 0
+	for v, a := range px {
+		if b, ok := py[v]; ok && a != b {
+			n++
+		}
+	}
+	return n
+}
+
+var flagPenalty = func() int {
+	if s := os.Getenv("RTPCHECK_FLAGPEN"); s != "" {
+		var n int
+		fmt.Sscan(s, &n)
+		return n
+	}
+	return 0 // disabled: it protects input flags at the price of merging cursor-different paths (VP9 header parser)
+}()
+
+// inputFlag: the atom is the value of a boolean parameter, or of a boolean field loaded from an object that
+// is a parameter of its frame (the flags a caller sets: p.Header.Padding, isLast), as opposed to a flag the
+// analysed code computed itself.
+func (it *interp) inputFlag(v int) bool {
+	if v < 0 || v >= len(it.at.info) {
+		return false
+	}
+	in := it.at.info[v]
+	if in.kind != aVal || in.key.v == nil {
+		return false
+	}
+	switch x := in.key.v.(type) {
+	case *ssa.Parameter:
+		return true
+	case *ssa.UnOp:
+		root := x.X
+		for {
+			switch y := root.(type) {
+			case *ssa.FieldAddr:
+				root = y.X
+				continue
+			case *ssa.Parameter:
+				return true
+			case *ssa.Alloc:
+				// a value parameter spilled to a local (its only stores copy the parameter in)
+				for _, ref := range *y.Referrers() {
+					if st, ok := ref.(*ssa.Store); ok && st.Addr == ssa.Value(y) {
+						if _, isP := st.Val.(*ssa.Parameter); isP {
+							return true
+						}
+					}
+				}
+				return false
+			}
+			return false
+		}
+	case fieldKey:
+		_, isP := x.Value.(*ssa.Parameter)
+		return isP
+	}
+	return false
 }
